@@ -8,6 +8,8 @@ CONSTANTS
     Topos <- MCAlertOnly
     StopKinds <- TaskOnly
     AllowFail = TRUE
+    MaxN = 3
+    MaxE = 4
     InfluxStopF = FALSE
     ReaderDone = TRUE
     AlertCloseOnErr = FALSE
